@@ -54,7 +54,7 @@ Definition guard_F5 (fx2 fx6 fx7 : bool) (eng : engine) (es : list centry) (t : 
 (* ------------------------------------------------------------------ findings: witnesses on loaded rule sets *)
 
 Definition served (fx2 fx5 fx6 fx7 : bool) (ds : list ruledef) (q : request) : option (outcome * list call) :=
-  match load ds with Loaded es t => Some (serve fx2 fx5 fx6 fx7 eng_none es t q) | _ => None end.
+  match load false ds with Loaded es t => Some (serve fx2 fx5 fx6 fx7 eng_none es t q) | _ => None end.
 
 (** C03-F2: /f/*rest with path_params rest = "x/y"; GET /f/x/y: the matcher is asked
     with no keys and no values, answers no, the request finds no rule *)
@@ -96,7 +96,7 @@ Qed.
     captures {a: b}; with a path_params condition on x the lookup panics *)
 Lemma F5_pinned_refuted :
   exists ds q k s segs caps sc es t,
-    load ds = Loaded es t /\ guard_F5 true true true eng_none es t q = true /\
+    load false ds = Loaded es t /\ guard_F5 true true true eng_none es t q = true /\
     served true false true true ds q = Some (ORule 1 caps false, [k]) /\
     nth_error (flat_routes 0 ds) (k_vid k) = Some s /\
     sr_segs s q = Some segs /\
@@ -115,7 +115,7 @@ Qed.
 
 Lemma F5_pinned_panic_refuted :
   exists ds q k es t,
-    load ds = Loaded es t /\ guard_F5 true true true eng_none es t q = true /\
+    load false ds = Loaded es t /\ guard_F5 true true true eng_none es t q = true /\
     served true false true true ds q = Some (OPanic, [k]) /\ k_res k = MPanic.
 Proof.
   exists [w_rule [] [] [w_route "/:a/b/c" []] SOff;
